@@ -15,7 +15,8 @@ Init == l = 1 /\ len = InitLen
 \* fn = 4: a call that spreads a list of w thousand elements (apply) under d frames needs one slot per element on top of them
 Need(lo) == Ev.d * Ev.unit * (lo + (IF Ev.fn = 3 THEN 110 ELSE 0)) + Ev.w * 1000 + (IF Ev.w > 0 THEN 200 ELSE 0)
 TDeep == /\ l <= Len(TraceLog) /\ Ev.e = "Deep" /\ l' = l + 1
-         /\ (Need(FrameMax) <= MaxLen => Ev.outcome = "value")
+         /\ (Need(FrameMax) <= MaxLen /\ Ev.lim = 0 => Ev.outcome = "value")      \* lim = 1: the heap is limited, the stack may fail to grow earlier
+         /\ Ev.outcome \in {"value", "error"}
          /\ (Need(FrameMin) > MaxLen => Ev.outcome = "error")
          /\ (Ev.outcome = "value" => Ev.valok = 1)
          /\ Ev.probe = 1                                   \* the context is still usable
